@@ -80,6 +80,18 @@ def build(codes, twin=0, defmode=0):
     return tables, "\n".join(out) + "\n"
 
 
+OTHER_TEXT = "\n".join(f"Decay {n}\n0.5 gamma gamma PHSP;\n0.5 e+ e- PHSP;\nEnddecay" for n in P + ["D*-", "Xi_c0"]) + "\n"
+
+
+def earlier_session():
+    """another parser used earlier in the same session defines the same names differently: nothing of it may survive"""
+    q = parse(OTHER_TEXT)
+    for n in P[:3]:
+        q.build_decay_chains(n)
+        q.expand_decay_modes(n)
+        q.build_decay_chains(n, stable_particles=["gamma"])
+
+
 def oracle_chain(tables, m, S):
     out = []
     for bf, ds, mo, pa in tables[m]:
@@ -119,6 +131,8 @@ def body_chains(sel: int) -> bool:
     import os
     codes, twin, defmode = family(sel)
     tables, text = build(codes, twin, defmode)
+    if sel % 3 == 2:
+        earlier_session()
     p = parse(text)
     sets = ALL_SETS if os.environ.get("VERIF_TIER") == "thorough" else [ALL_SETS[(sel * 7 + k * 9) % len(ALL_SETS)] for k in range(8)]
     for mi, m in enumerate(P + ["D*-", "Xi_c0", "Orig3"]):
@@ -172,6 +186,8 @@ def oracle_count(tables, m):
 def body_expand(sel: int) -> bool:
     codes, twin, defmode = family(sel)
     tables, text = build(codes, twin, defmode)
+    if sel % 3 == 2:
+        earlier_session()
     p = parse(text)
     if sel % 2:
         # an earlier chain-building call with some particles forced stable must not influence the expansion
